@@ -720,7 +720,7 @@ fn spec_filters_ok(d: &[u8], with_qos: bool) -> bool {
 
 vharness! {
     //@ props: C02
-    //@ tier: quick
+    //@ tier: thorough
     //@ functions: v3 decode::decode_packet, decode_subscribe_packet, ByteString::decode, Bytes::decode
     //@ bounds: every body of 0..=9 arbitrary bytes (at most 3 filters)
     //@ unwindset: utf8_is_valid=8 decode_subscribe_packet=5 spec_filters_ok=5 spec_utf8=8 slice_eq=8
@@ -753,7 +753,7 @@ vharness! {
 
 vharness! {
     //@ props: C02
-    //@ tier: quick
+    //@ tier: thorough
     //@ functions: v3 decode::decode_packet, decode_unsubscribe_packet
     //@ bounds: every body of 0..=8 arbitrary bytes (at most 3 filters)
     //@ unwindset: utf8_is_valid=8 decode_unsubscribe_packet=5 spec_filters_ok=5 spec_utf8=8 slice_eq=8
@@ -797,60 +797,74 @@ fn spec_lp(d: &[u8], pos: &mut usize) -> Option<(usize, usize)> {
     Some((a, a + l))
 }
 
-vharness! {
-    //@ props: C02 C19
-    //@ tier: quick
-    //@ functions: v3 decode::decode_packet, decode_connect_packet, ConnectFlags::from_bits, QoS::try_from
-    //@ bounds: every body of 0..=16 arbitrary bytes
-    //@ unwindset: utf8_is_valid=8 spec_utf8=8 slice_eq=8 expect_lp=8
-    //@ mem: 20  timeout: 1800
-    //@ desc: v3 CONNECT body: wrong protocol name or level, reserved flag bit, will QoS 3, truncated or over-long inner fields, invalid UTF-8 and an empty client id without clean session are errors; accepted otherwise; stable. Leniencies of the decoder: bytes after the last field are ignored; will QoS/retain bits without the will flag are ignored
-    fn bd3_connect() unwind(18) {
-        let data: [u8; 16] = vk::any_bytes::<16>();
-        let len = vk::any_len(16);
-        let r = decode::decode_packet(vk::bytes_of(data, len), 0x10);
-        let d = &data[..len];
-        let mut want_ok = len >= 10 && d[0] == 0 && d[1] == 4 && d[2] == b'M' && d[3] == b'Q' && d[4] == b'T' && d[5] == b'T' && d[6] == 4 && d[7] & 1 == 0;
-        if want_ok {
-            let flags = d[7];
-            let mut pos = 10;
-            match spec_lp(d, &mut pos) {
-                Some((a, b)) => {
-                    if !spec_utf8(&d[a..b]) || (a == b && flags & 0x02 == 0) {
+macro_rules! bd3_connect {
+    ($name:ident, $n:expr) => {
+        vharness! {
+            fn $name() unwind(18) {
+                let data: [u8; $n] = vk::any_bytes::<$n>();
+                let len = vk::any_len($n);
+                let r = decode::decode_packet(vk::bytes_of(data, len), 0x10);
+                let d = &data[..len];
+                let mut want_ok = len >= 10 && d[0] == 0 && d[1] == 4 && d[2] == b'M' && d[3] == b'Q' && d[4] == b'T' && d[5] == b'T' && d[6] == 4 && d[7] & 1 == 0;
+                if want_ok {
+                    let flags = d[7];
+                    let mut pos = 10;
+                    match spec_lp(d, &mut pos) {
+                        Some((a, b)) => {
+                            if !spec_utf8(&d[a..b]) || (a == b && flags & 0x02 == 0) {
+                                want_ok = false;
+                            }
+                        }
+                        None => want_ok = false,
+                    }
+                    if want_ok && flags & 0x04 != 0 {
+                        match spec_lp(d, &mut pos) {
+                            Some((a, b)) => if !spec_utf8(&d[a..b]) { want_ok = false; },
+                            None => want_ok = false,
+                        }
+                        if want_ok && spec_lp(d, &mut pos).is_none() {
+                            want_ok = false;
+                        }
+                        if (flags >> 3) & 3 == 3 {
+                            want_ok = false;
+                        }
+                    }
+                    if want_ok && flags & 0x80 != 0 {
+                        match spec_lp(d, &mut pos) {
+                            Some((a, b)) => if !spec_utf8(&d[a..b]) { want_ok = false; },
+                            None => want_ok = false,
+                        }
+                    }
+                    if want_ok && flags & 0x40 != 0 && spec_lp(d, &mut pos).is_none() {
                         want_ok = false;
                     }
                 }
-                None => want_ok = false,
-            }
-            if want_ok && flags & 0x04 != 0 {
-                match spec_lp(d, &mut pos) {
-                    Some((a, b)) => if !spec_utf8(&d[a..b]) { want_ok = false; },
-                    None => want_ok = false,
+                assert!(r.is_ok() == want_ok);
+                if let Ok(p) = &r {
+                    assert!(stable3(p, 0x10));
                 }
-                if want_ok && spec_lp(d, &mut pos).is_none() {
-                    want_ok = false;
-                }
-                if (flags >> 3) & 3 == 3 {
-                    want_ok = false;
-                }
-            }
-            if want_ok && flags & 0x80 != 0 {
-                match spec_lp(d, &mut pos) {
-                    Some((a, b)) => if !spec_utf8(&d[a..b]) { want_ok = false; },
-                    None => want_ok = false,
-                }
-            }
-            if want_ok && flags & 0x40 != 0 && spec_lp(d, &mut pos).is_none() {
-                want_ok = false;
+                vcover!($n < 16 || (r.is_ok() && data[7] & 0x04 != 0), "accepted with a will");
+                vcover!($n < 16 || (r.is_ok() && data[7] & 0xC0 == 0xC0), "accepted with username and password");
+                vcover!(r.is_ok(), "accepted");
+                vcover!(r == Err(crate::error::DecodeError::ConnectReservedFlagSet), "reserved flag rejected");
+                vcover!(r == Err(crate::error::DecodeError::InvalidClientId), "empty client id without clean session rejected");
             }
         }
-        assert!(r.is_ok() == want_ok);
-        if let Ok(p) = &r {
-            assert!(stable3(p, 0x10));
-        }
-        vcover!(r.is_ok() && data[7] & 0x04 != 0, "accepted with a will");
-        vcover!(r.is_ok() && data[7] & 0xC0 == 0xC0, "accepted with username and password");
-        vcover!(r == Err(crate::error::DecodeError::ConnectReservedFlagSet), "reserved flag rejected");
-        vcover!(r == Err(crate::error::DecodeError::InvalidClientId), "empty client id without clean session rejected");
-    }
+    };
 }
+//@ props: C02 C19
+//@ tier: quick
+//@ functions: v3 decode::decode_packet, decode_connect_packet, ConnectFlags::from_bits, QoS::try_from
+//@ bounds: every body of 0..=12 arbitrary bytes (the shortest accepted CONNECT has 12..13 bytes; will / username / password need 16: thorough tier)
+//@ unwindset: utf8_is_valid=8 spec_utf8=8 slice_eq=8 expect_lp=8
+//@ mem: 20  timeout: 900
+//@ desc: v3 CONNECT body: wrong protocol name or level, reserved flag bit, truncated or over-long inner fields, invalid UTF-8 and an empty client id without clean session are errors; accepted otherwise; stable
+bd3_connect!(bd3_connect_12, 12);
+//@ props: C02 C19
+//@ tier: thorough
+//@ functions: v3 decode::decode_packet, decode_connect_packet, ConnectFlags::from_bits, QoS::try_from
+//@ bounds: every body of 0..=16 arbitrary bytes
+//@ unwindset: utf8_is_valid=8 spec_utf8=8 slice_eq=8 expect_lp=8
+//@ mem: 20  timeout: 1800
+//@ desc: v3 CONNECT body: wrong protocol name or level, reserved flag bit, will QoS 3, truncated or over-long inner fields, invalid UTF-8 and an empty client id without clean session are errors; accepted otherwise; stable. Leniencies of the decoder: bytes after the last field are ignored; will QoS/retain bits without the will flag are ignored
+bd3_connect!(bd3_connect, 16);
